@@ -11,6 +11,7 @@ The full property is FALSE on the pinned tree (the property text says so); what 
   C09_serial_equiv         the committed state is the sequential application of the committed batches
   C09_quiescent_warm_cold  on a coherent cache a search alone answers warm exactly as cold
   C09_partial              safety when no two transactions overlap on one cache name
+  C09_handoff_needed       a rolled-back writer's object that is given up without being scrapped breaks it
   C09_shared_unsafe        the negation of the full property, with three closed witnesses
 -/
 import SemaModel.C09.Lemmas
@@ -122,6 +123,23 @@ example : flagsOf (runNO (init true exDisk) seqb) 3 = some (false, false, false)
     (runNO (init true exDisk) w1).isNone ∧ (runNO (init true exDisk) w2a).isNone ∧
     (runNO (init true exDisk) w2b).isNone := by decide
 
+/-- non-vacuity for the fall-back to a temporary cold object (`accessCold`, part of every schedule the theorems above
+quantify over): in `handoff` the writer that queued for the object of a rolled-back writer passes the discipline, is sent
+to a temporary object, and everybody reads exactly its own snapshot - the rolled-back item 8 is seen by nobody, the
+reader after the writers builds the manager's new object and sees the committed item 9 -/
+example : flagsOf (runNO (init true exDisk) handoff) 3 = some (false, false, false) ∧
+    flagsOf (runNO (init true exDisk) handoff) 4 = some (false, false, false) ∧
+    (match runNO (init true exDisk) handoff with | some s => (s.txs 4).map (·.obs) | none => none)
+      = some [(0, 1, some 1), (0, 9, some 309), (0, 8, none)] ∧
+    (match runNO (init true exDisk) handoff with | some s => s.log | none => [])
+      = [[.setPt 9 309, .put 0 9 309]] := by decide
+
+/-- a writer is sent to a temporary object only while the manager has no entry for the name: with an entry (the object
+another transaction registered meanwhile would never see the batch, notes/C09.md F6) the step is not enabled -/
+example : (run (init true exDisk) [.beginR 1, .access 1 0, .leave 1 0, .beginW 2, .accessCold 2 0]).isNone ∧
+    (run (init true exDisk) [.beginR 1, .access 1 0, .leave 1 0, .beginW 2, .evict 0, .accessCold 2 0]).isSome ∧
+    (run (init true exDisk) [.beginW 2, .access 2 0, .beginR 1, .accessCold 1 0, .read 1 0 1]).isSome := by decide
+
 /-! ### what is false on the pinned tree, proved false -/
 
 /-- w1 reaches a read through a handle whose transaction has ended -/
@@ -165,6 +183,16 @@ theorem C09_shared_unsafe :
       cases ht : s.txs 1 with
       | none => rw [ht] at h; simp at h
       | some tx => rw [ht] at h; simp at h; exact ⟨w2a, s, 1, tx, hr, ht, h.2.2⟩
+
+/-- **C09_handoff_needed.** Why `cacheTx.Commit` of a rolled-back writer has to scrap its object and drop it from the
+manager *before* anybody else can lock it (the single step `release` of the model; in manager.go: under the manager
+lock, before `s.mu.Unlock()`).  If the object is merely given up (`stepReleaseKeep`: the effect of `seeded/C07-2p` and
+`seeded/C09-r3-1`), a schedule in which every `access` satisfies the no-overlap discipline of `C09_partial` - the failed
+writer 2 has ended and let go before writer 3 touches the cache, reader 4 begins after 3 has finished - makes writer 3
+read the rolled-back item 8 (u3) and reader 4 find it and fail to back-fill it (u3, u2: "point does not exist").
+Closed witness; the forced families `wfailq` / `wfailr` are its replay on the real shard. -/
+theorem C09_handoff_needed : flagsOf handoffKept 3 = some (false, false, true) ∧
+    flagsOf handoffKept 4 = some (false, true, true) ∧ badOf handoffKept = some .u3 := by decide
 
 /-
 **C09_full** (the property as stated; NOT provable - `C09_shared_unsafe` refutes it):
